@@ -5,6 +5,7 @@ import (
 	"compress/gzip"
 	"encoding/json"
 	"fmt"
+	"hash/fnv"
 	"io"
 	"math/rand"
 	"os"
@@ -75,6 +76,12 @@ func tmpFile(b []byte) string {
 // stream runs ParseConcurrent with a channel of the given capacity and a consumer that stalls at
 // random; it reports the records, how many times the channel was observed closed and any panic.
 func stream(r io.Reader, cap int, rng *rand.Rand) (recs []fastaRec, closes int, panicMsg string) {
+	return streamWith(func(ch chan<- fasta.Fasta) { fasta.ParseConcurrent(r, ch) }, false, cap, rng)
+}
+
+// streamWith: start feeds the channel; async = start returns at once and the stream goes on in a goroutine of the
+// library's own (ReadConcurrent, ReadGzConcurrent), so its return says nothing about the end of the stream
+func streamWith(start func(chan<- fasta.Fasta), async bool, cap int, rng *rand.Rand) (recs []fastaRec, closes int, panicMsg string) {
 	ch := make(chan fasta.Fasta, cap)
 	pdone := make(chan string, 1)
 	go func() {
@@ -85,9 +92,10 @@ func stream(r io.Reader, cap int, rng *rand.Rand) (recs []fastaRec, closes int, 
 			}
 			pdone <- ""
 		}()
-		fasta.ParseConcurrent(r, ch)
+		start(ch)
 	}()
 	recs = []fastaRec{}
+	returned := false
 	timeout := time.After(60 * time.Second)
 	for {
 		if rng != nil && rng.Intn(4) == 0 {
@@ -97,6 +105,9 @@ func stream(r io.Reader, cap int, rng *rand.Rand) (recs []fastaRec, closes int, 
 		case f, more := <-ch:
 			if !more {
 				closes = 1
+				if returned {
+					return
+				}
 				panicMsg = <-pdone
 				// a second close (or a send after close) panics in the producer
 				return
@@ -105,6 +116,11 @@ func stream(r io.Reader, cap int, rng *rand.Rand) (recs []fastaRec, closes int, 
 		case msg := <-pdone:
 			if msg != "" {
 				return recs, closes, msg
+			}
+			if async {
+				returned = true
+				pdone = nil
+				continue
 			}
 			// producer returned: drain what is buffered, then expect the close
 			for {
@@ -167,6 +183,14 @@ func readVia(via string, text []byte, cap int, rng *rand.Rand) (recs []fastaRec,
 		p := tmpFile(gz(text))
 		defer os.Remove(p)
 		return toRecs(fasta.ReadGz(p)), 1, ""
+	case "readconc":
+		p := tmpFile(text)
+		defer os.Remove(p)
+		return streamWith(func(ch chan<- fasta.Fasta) { fasta.ReadConcurrent(p, ch) }, true, cap, rng)
+	case "readgzconc":
+		p := tmpFile(gz(text))
+		defer os.Remove(p)
+		return streamWith(func(ch chan<- fasta.Fasta) { fasta.ReadGzConcurrent(p, ch) }, true, cap, rng)
 	case "streamgz":
 		zr, _ := gzip.NewReader(bytes.NewReader(gz(text)))
 		return stream(zr, cap, rng)
@@ -177,7 +201,7 @@ func readVia(via string, text []byte, cap int, rng *rand.Rand) (recs []fastaRec,
 	}
 }
 
-var c13Vias = []string{"parse", "read", "readgz", "stream", "streamgz", "streamslow", "streamslow"}
+var c13Vias = []string{"parse", "read", "readgz", "stream", "streamgz", "streamslow", "streamslow", "readconc", "readgzconc"}
 
 func c13Replay(c json.RawMessage) Verdict {
 	var cs struct {
@@ -256,6 +280,29 @@ func c13Record(tier string, seed int64, emit func(interface{})) {
 			b[i] = "ACGTNacgtnRYKMSWBDHVUEFILPQZX*-"[rng.Intn(31)]
 		}
 		return string(b)
+	}
+	// one file beyond any read-ahead buffer (5..7 MiB) through every path-taking entry point, the channel ones
+	// included; the sequences are logged as length and FNV-1a digest (TLC compares the records as values)
+	{
+		var recs []fasta.Fasta
+		for j := 0; j < 20+rng.Intn(6); j++ {
+			recs = append(recs, fasta.Fasta{Name: printable(1 + rng.Intn(30)), Sequence: letters(250000 + rng.Intn(40000))})
+		}
+		digest := func(rs []fastaRec) []fastaRec {
+			out := []fastaRec{}
+			for _, r := range rs {
+				h := fnv.New64a()
+				h.Write([]byte(r.Seq))
+				out = append(out, fastaRec{r.Name, fmt.Sprintf("#%d:%016x", len(r.Seq), h.Sum64())})
+			}
+			return out
+		}
+		text := fasta.Build(recs)
+		for _, via := range []string{"read", "readconc", "readgz", "readgzconc"} {
+			cap := []int{0, 1, 100}[rng.Intn(3)]
+			got, closes, pm := readVia(via, text, cap, rng)
+			emit(map[string]interface{}{"k": "rt", "via": via, "cap": cap, "written": digest(toRecs(recs)), "got": digest(got), "closes": closes, "panic": pm != "", "msg": pm})
+		}
 	}
 	var pendingRT []func()
 	for i := 0; i < n; i++ {
